@@ -669,6 +669,301 @@ impl VisitMut for DerefVars {
 }
 
 /// R3: finds `rt.transaction(|..| body)` calls in source order.
+
+// ===================== R21: region + forward slice (opt-in) =====================
+// `region="<from>=><to>"` selects, in the innermost block of the function that has a statement whose text starts with <from>, the statements
+// from that one up to and including the first later statement starting with <to>, and lifts them into a function (`as=`, `params=`, `retty=`,
+// optional `tail=`). `slice="a,b"` then keeps only the statements that mention a slice identifier (closed forward over `let` and `for`
+// bindings initialised from one) and the headers of the loops / ifs / blocks around them; everything else in the region is DROPPED.
+// What makes dropping sound for a postcondition that speaks only about the slice variables (and holds only on normal completion):
+//   * a dropped statement mentions no slice identifier (by construction), contains no `break` / `continue`, and binds no name a kept statement uses;
+//   * every other parameter / loop variable the kept code reads is checked to be read-only in dropped statements (no assignment, no `&mut`,
+//     no method call on it unless it is listed in `shared=` as a shared reference);
+//   * parameters listed in `havoc=` may be changed arbitrarily by dropped code: each run of dropped statements is replaced by a call to an
+//     auto-declared unconstrained `<as>__havoc(..)` over them.
+// Early exits (`?`, `return`) in dropped statements are lost: the contract of a region is about runs that reach its end.
+fn norm_text(ts: TokenStream) -> String {
+    pretty(ts, 0).split_whitespace().collect::<Vec<_>>().join(" ")
+}
+struct RegionFinder {
+    from: String,
+    to: String,
+    got: Option<Vec<syn::Stmt>>,
+    hits: usize,
+}
+impl<'ast> Visit<'ast> for RegionFinder {
+    fn visit_block(&mut self, b: &'ast syn::Block) {
+        syn::visit::visit_block(self, b);
+        let mut start = None;
+        for (i, st) in b.stmts.iter().enumerate() {
+            if norm_text(st.to_token_stream()).starts_with(&self.from) {
+                start = Some(i);
+                break;
+            }
+        }
+        if let Some(i) = start {
+            self.hits += 1;
+            if self.got.is_some() {
+                return;
+            }
+            for j in i..b.stmts.len() {
+                if norm_text(b.stmts[j].to_token_stream()).starts_with(&self.to) {
+                    self.got = Some(b.stmts[i..=j].to_vec());
+                    return;
+                }
+            }
+        }
+    }
+}
+fn ts_idents(ts: TokenStream, out: &mut std::collections::BTreeSet<String>) {
+    for t in ts {
+        match t {
+            TokenTree::Ident(i) => {
+                out.insert(i.to_string());
+            }
+            TokenTree::Group(g) => ts_idents(g.stream(), out),
+            _ => {}
+        }
+    }
+}
+/// identifiers in variable position: an identifier right after a `.` is a field or method name and is skipped
+fn ts_var_idents(ts: TokenStream, out: &mut std::collections::BTreeSet<String>) {
+    let mut after_dot = false;
+    for t in ts {
+        match t {
+            TokenTree::Ident(i) => {
+                if !after_dot {
+                    out.insert(i.to_string());
+                }
+                after_dot = false;
+            }
+            TokenTree::Group(g) => {
+                ts_var_idents(g.stream(), out);
+                after_dot = false;
+            }
+            TokenTree::Punct(p) => {
+                after_dot = p.as_char() == '.' && p.spacing() == Spacing::Alone;
+            }
+            _ => after_dot = false,
+        }
+    }
+}
+fn ts_mentions(ts: TokenStream, set: &std::collections::BTreeSet<String>) -> bool {
+    let mut ids = std::collections::BTreeSet::new();
+    ts_var_idents(ts, &mut ids);
+    ids.iter().any(|i| set.contains(i))
+}
+fn pat_idents(p: &syn::Pat, out: &mut std::collections::BTreeSet<String>) {
+    struct V<'a>(&'a mut std::collections::BTreeSet<String>);
+    impl<'ast, 'a> Visit<'ast> for V<'a> {
+        fn visit_pat_ident(&mut self, p: &'ast syn::PatIdent) {
+            self.0.insert(p.ident.to_string());
+            syn::visit::visit_pat_ident(self, p);
+        }
+    }
+    V(out).visit_pat(p);
+}
+/// forward closure of the slice set over `let P = E` and `for P in E` whose E mentions it
+struct SliceClosure<'a> {
+    keep: &'a mut std::collections::BTreeSet<String>,
+    changed: bool,
+}
+impl<'ast, 'a> Visit<'ast> for SliceClosure<'a> {
+    fn visit_local(&mut self, l: &'ast syn::Local) {
+        if let Some(init) = &l.init {
+            if ts_mentions(init.expr.to_token_stream(), self.keep) {
+                let mut ids = std::collections::BTreeSet::new();
+                pat_idents(&l.pat, &mut ids);
+                for i in ids {
+                    if self.keep.insert(i) {
+                        self.changed = true;
+                    }
+                }
+            }
+        }
+        syn::visit::visit_local(self, l);
+    }
+    fn visit_expr_for_loop(&mut self, f: &'ast syn::ExprForLoop) {
+        if ts_mentions(f.expr.to_token_stream(), self.keep) {
+            let mut ids = std::collections::BTreeSet::new();
+            pat_idents(&f.pat, &mut ids);
+            for i in ids {
+                if self.keep.insert(i) {
+                    self.changed = true;
+                }
+            }
+        }
+        syn::visit::visit_expr_for_loop(self, f);
+    }
+}
+struct Slicer {
+    keep: std::collections::BTreeSet<String>,
+    havoc_call: Option<syn::Stmt>,
+    dropped: Vec<syn::Stmt>,
+    kept_simple: usize,
+    havocs: usize,
+    loop_vars: std::collections::BTreeSet<String>,
+}
+impl Slicer {
+    fn slice_block(&mut self, b: &mut syn::Block) -> bool {
+        let stmts = std::mem::take(&mut b.stmts);
+        let (out, any) = self.slice_stmts(stmts);
+        b.stmts = out;
+        any
+    }
+    /// slices a compound expression in place; returns whether anything inside (or its header) is kept
+    fn slice_compound(&mut self, e: &mut syn::Expr) -> Option<bool> {
+        match e {
+            syn::Expr::ForLoop(f) => {
+                let hdr = ts_mentions(f.expr.to_token_stream(), &self.keep);
+                let inner = self.slice_block(&mut f.body);
+                if hdr || inner {
+                    pat_idents(&f.pat, &mut self.loop_vars);
+                }
+                Some(hdr || inner)
+            }
+            syn::Expr::While(w) => {
+                let hdr = ts_mentions(w.cond.to_token_stream(), &self.keep);
+                let inner = self.slice_block(&mut w.body);
+                Some(hdr || inner)
+            }
+            syn::Expr::Loop(l) => Some(self.slice_block(&mut l.body)),
+            syn::Expr::Block(b) if b.label.is_none() => Some(self.slice_block(&mut b.block)),
+            syn::Expr::If(i) => {
+                let hdr = ts_mentions(i.cond.to_token_stream(), &self.keep);
+                let mut inner = self.slice_block(&mut i.then_branch);
+                if let Some((_, els)) = &mut i.else_branch {
+                    match self.slice_compound(els) {
+                        Some(k) => inner = inner || k,
+                        None => die("internal: else branch is not a block"),
+                    }
+                }
+                Some(hdr || inner)
+            }
+            _ => None,
+        }
+    }
+    fn slice_stmts(&mut self, stmts: Vec<syn::Stmt>) -> (Vec<syn::Stmt>, bool) {
+        let mut out = vec![];
+        let mut any = false;
+        let mut run = false;
+        for mut st in stmts {
+            let kept = match &mut st {
+                syn::Stmt::Expr(e, _) => match self.slice_compound(e) {
+                    Some(k) => k,
+                    None => {
+                        let k = ts_mentions(st.to_token_stream(), &self.keep);
+                        if k {
+                            self.kept_simple += 1;
+                        }
+                        k
+                    }
+                },
+                other => {
+                    let k = ts_mentions(other.to_token_stream(), &self.keep);
+                    if k {
+                        self.kept_simple += 1;
+                    }
+                    k
+                }
+            };
+            if kept {
+                if run {
+                    if let Some(h) = &self.havoc_call {
+                        out.push(h.clone());
+                        self.havocs += 1;
+                    }
+                }
+                run = false;
+                any = true;
+                out.push(st);
+            } else {
+                self.dropped.push(st);
+                run = true;
+            }
+        }
+        if run {
+            if let Some(h) = &self.havoc_call {
+                out.push(h.clone());
+                self.havocs += 1;
+            }
+        }
+        (out, any)
+    }
+}
+fn expr_root(e: &syn::Expr) -> Option<String> {
+    match e {
+        syn::Expr::Path(p) if p.path.segments.len() == 1 && p.qself.is_none() => Some(p.path.segments[0].ident.to_string()),
+        syn::Expr::Field(f) => expr_root(&f.base),
+        syn::Expr::Index(i) => expr_root(&i.expr),
+        syn::Expr::Paren(p) => expr_root(&p.expr),
+        syn::Expr::Unary(u) if matches!(u.op, syn::UnOp::Deref(_)) => expr_root(&u.expr),
+        syn::Expr::Reference(r) => expr_root(&r.expr),
+        _ => None,
+    }
+}
+/// read-only check of `ro` identifiers inside a dropped statement
+struct RoCheck<'a> {
+    ro: &'a std::collections::BTreeSet<String>,
+    shared: &'a std::collections::BTreeSet<String>,
+    bad: Vec<String>,
+}
+impl<'ast, 'a> Visit<'ast> for RoCheck<'a> {
+    fn visit_expr(&mut self, e: &'ast syn::Expr) {
+        match e {
+            syn::Expr::Assign(a) => {
+                if let Some(r) = expr_root(&a.left) {
+                    if self.ro.contains(&r) {
+                        self.bad.push(format!("assignment to `{}`", r));
+                    }
+                }
+            }
+            syn::Expr::Binary(b) => {
+                let is_assign = matches!(
+                    b.op,
+                    syn::BinOp::AddAssign(_) | syn::BinOp::SubAssign(_) | syn::BinOp::MulAssign(_) | syn::BinOp::DivAssign(_) | syn::BinOp::RemAssign(_)
+                        | syn::BinOp::BitXorAssign(_) | syn::BinOp::BitAndAssign(_) | syn::BinOp::BitOrAssign(_) | syn::BinOp::ShlAssign(_) | syn::BinOp::ShrAssign(_)
+                );
+                if is_assign {
+                    if let Some(r) = expr_root(&b.left) {
+                        if self.ro.contains(&r) {
+                            self.bad.push(format!("compound assignment to `{}`", r));
+                        }
+                    }
+                }
+            }
+            syn::Expr::Reference(r) if r.mutability.is_some() => {
+                if let Some(x) = expr_root(&r.expr) {
+                    if self.ro.contains(&x) {
+                        self.bad.push(format!("`&mut {}`", x));
+                    }
+                }
+            }
+            syn::Expr::MethodCall(m) => {
+                if let Some(x) = expr_root(&m.receiver) {
+                    if self.ro.contains(&x) && !self.shared.contains(&x) {
+                        self.bad.push(format!("method call `{}.{}(..)` (not declared shared=)", x, m.method));
+                    }
+                }
+            }
+            syn::Expr::Macro(m) => {
+                let t = m.mac.tokens.to_string();
+                let mut ids = std::collections::BTreeSet::new();
+                ts_idents(m.mac.tokens.clone(), &mut ids);
+                if ids.iter().any(|i| self.ro.contains(i)) {
+                    for op in [" = ", "+=", "-=", "*=", "/=", "|=", "&=", "^=", "%=", "<<=", ">>=", "& mut", "&mut"] {
+                        if t.contains(op) {
+                            self.bad.push(format!("macro arguments contain `{}`", op.trim()));
+                        }
+                    }
+                }
+            }
+            _ => {}
+        }
+        syn::visit::visit_expr(self, e);
+    }
+}
+
 struct TxFinder {
     found: Vec<syn::ExprClosure>,
 }
@@ -1106,6 +1401,8 @@ fn emit_fn(ctx: &mut Ctx, d: &FnDir, out: &mut String) {
     let mut vis = f.vis.clone();
     let mut closure_of: Option<usize> = None;
     let mut nested_of = false;
+    let mut region_notes: Vec<String> = vec![];
+    let mut region_havoc_decl: Option<String> = None;
 
     // ---- closure lifting (this directive extracts the k-th transaction closure as a function)
     if let Some(k) = d.opts.get("closure") {
@@ -1158,6 +1455,131 @@ fn emit_fn(ctx: &mut Ctx, d: &FnDir, out: &mut String) {
         if let Some(newname) = d.opts.get("as") {
             sig.ident = syn::Ident::new(newname, sig.ident.span());
         }
+    } else if let Some(reg) = d.opts.get("region") {
+        let (from, to) = reg.split_once("=>").unwrap_or_else(|| die("region= expects \"<from pattern>=><to pattern>\""));
+        let normp = |p: &str| norm_text(TokenStream::from_str(p).unwrap_or_else(|_| die("bad region pattern")));
+        let mut rf = RegionFinder { from: normp(from), to: normp(to), got: None, hits: 0 };
+        rf.visit_block(&block);
+        if rf.hits > 1 {
+            die(&format!("ambiguous anchor: region start `{}` occurs in {} blocks of {}", rf.from, rf.hits, d.path));
+        }
+        let stmts = rf.got.unwrap_or_else(|| die(&format!("lost anchor: region `{}` .. `{}` not found in {}", rf.from, rf.to, d.path)));
+        let params = d.opts.get("params").unwrap_or_else(|| die("region= needs params="));
+        let retty = d.opts.get("retty").unwrap_or_else(|| die("region= needs retty="));
+        let newname = d.opts.get("as").unwrap_or_else(|| die("region= needs as="));
+        let sigtxt = format!("fn {}({}) -> {}", newname, params, retty);
+        sig = syn::parse_str::<syn::Signature>(&sigtxt).unwrap_or_else(|e| die(&format!("bad lifted signature `{}`: {}", sigtxt, e)));
+        let n_region = stmts.len();
+        block = syn::parse_quote!({ #(#stmts)* });
+        region_notes.push(format!("[region] {} top-level statement(s) `{}` .. `{}` of {} lifted into fn {}({})", n_region, rf.from, rf.to, d.path, newname, params));
+        if let Some(sl) = d.opts.get("slice") {
+            let csv = |k: &str| -> std::collections::BTreeSet<String> {
+                d.opts.get(k).map(|v| v.split(',').map(|x| x.trim().to_string()).filter(|x| !x.is_empty()).collect()).unwrap_or_default()
+            };
+            let mut keep: std::collections::BTreeSet<String> = sl.split(',').map(|x| x.trim().to_string()).filter(|x| !x.is_empty()).collect();
+            let declared = keep.clone();
+            loop {
+                let mut sc = SliceClosure { keep: &mut keep, changed: false };
+                sc.visit_block(&block);
+                if !sc.changed {
+                    break;
+                }
+            }
+            let havoc = csv("havoc");
+            let shared = csv("shared");
+            let mut pnames: Vec<(String, syn::Type)> = vec![];
+            for inp in sig.inputs.iter() {
+                if let syn::FnArg::Typed(pt) = inp {
+                    pnames.push((pt.pat.to_token_stream().to_string(), (*pt.ty).clone()));
+                }
+            }
+            for h in &havoc {
+                if !pnames.iter().any(|(n, _)| n == h) {
+                    die(&format!("havoc={} is not a parameter of the lifted region", h));
+                }
+                if keep.contains(h) {
+                    die(&format!("havoc={} is also a slice identifier", h));
+                }
+            }
+            let havoc_call: Option<syn::Stmt> = if havoc.is_empty() {
+                None
+            } else {
+                let hf = quote::format_ident!("{}__havoc", newname);
+                let args: Vec<syn::Ident> = pnames.iter().filter(|(n, _)| havoc.contains(n)).map(|(n, _)| quote::format_ident!("{}", n)).collect();
+                Some(syn::parse_quote!(#hf(#(#args),*);))
+            };
+            let mut sl = Slicer { keep: keep.clone(), havoc_call, dropped: vec![], kept_simple: 0, havocs: 0, loop_vars: Default::default() };
+            sl.slice_block(&mut block);
+            if sl.kept_simple == 0 {
+                die(&format!("lost anchor: slice={} keeps no statement of the region in {}", declared.iter().cloned().collect::<Vec<_>>().join(","), d.path));
+            }
+            // ---- soundness checks on what was dropped
+            let mut kept_ids = std::collections::BTreeSet::new();
+            ts_var_idents(block.to_token_stream(), &mut kept_ids);
+            let mut ro: std::collections::BTreeSet<String> = pnames.iter().map(|(n, _)| n.clone()).filter(|n| !keep.contains(n) && !havoc.contains(n)).collect();
+            for v in &sl.loop_vars {
+                if !keep.contains(v) {
+                    ro.insert(v.clone());
+                }
+            }
+            for st in &sl.dropped {
+                let mut ids = std::collections::BTreeSet::new();
+                ts_idents(st.to_token_stream(), &mut ids);
+                let short: String = norm_text(st.to_token_stream()).chars().take(70).collect();
+                if ids.contains("break") || ids.contains("continue") {
+                    die(&format!("unsupported construct: a statement dropped by slice= contains break/continue (`{}…`) in {}", short, d.path));
+                }
+                struct LetPats(std::collections::BTreeSet<String>);
+                impl<'ast> Visit<'ast> for LetPats {
+                    fn visit_local(&mut self, l: &'ast syn::Local) {
+                        pat_idents(&l.pat, &mut self.0);
+                        syn::visit::visit_local(self, l);
+                    }
+                }
+                // only TOP-LEVEL lets of the dropped statement stay in scope for later kept statements
+                if let syn::Stmt::Local(l) = st {
+                    let mut lp = LetPats(Default::default());
+                    lp.visit_local(l);
+                    let mut own = std::collections::BTreeSet::new();
+                    pat_idents(&l.pat, &mut own);
+                    for i in own {
+                        if kept_ids.contains(&i) {
+                            die(&format!("unsupported construct: dropped `let` binds `{}`, which kept statements use (`{}…`) in {}", i, short, d.path));
+                        }
+                    }
+                }
+                let mut rc = RoCheck { ro: &ro, shared: &shared, bad: vec![] };
+                rc.visit_stmt(st);
+                if !rc.bad.is_empty() {
+                    die(&format!("unsupported construct: dropped statement `{}…` may change a value the slice reads: {} in {}", short, rc.bad.join("; "), d.path));
+                }
+            }
+            if !havoc.is_empty() {
+                let tys: Vec<String> = pnames.iter().filter(|(n, _)| havoc.contains(n)).map(|(n, t)| format!("{}: {}", n, norm_text(t.to_token_stream()))).collect();
+                region_havoc_decl = Some(format!("fn {}__havoc({})", newname, tys.join(", ")));
+            }
+            region_notes.push(format!(
+                "[slice] slice identifiers {{{}}} (declared: {}); {} simple statement(s) kept, {} statement(s) DROPPED (no slice identifier, no break/continue, no shadowing let, read-only on {{{}}}; shared refs: {{{}}}); {} havoc call(s) over {{{}}} replace the dropped runs; early exits of dropped statements are lost",
+                keep.iter().cloned().collect::<Vec<_>>().join(","),
+                declared.iter().cloned().collect::<Vec<_>>().join(","),
+                sl.kept_simple,
+                sl.dropped.len(),
+                ro.iter().cloned().collect::<Vec<_>>().join(","),
+                shared.iter().cloned().collect::<Vec<_>>().join(","),
+                sl.havocs,
+                havoc.iter().cloned().collect::<Vec<_>>().join(","),
+            ));
+            for st in &sl.dropped {
+                let short: String = norm_text(st.to_token_stream()).chars().take(90).collect();
+                region_notes.push(format!("[slice:dropped] {}", short));
+            }
+        }
+        if let Some(t) = d.opts.get("tail") {
+            let te: syn::Expr = syn::parse_str(t).unwrap_or_else(|_| die("bad tail= expression"));
+            block.stmts.push(syn::Stmt::Expr(te, None));
+        }
+        vis = syn::parse_quote!(pub);
+        nested_of = true;
     } else if let Some(newname) = d.opts.get("as") {
         sig.ident = syn::Ident::new(newname, sig.ident.span());
     }
@@ -1498,6 +1920,7 @@ fn emit_fn(ctx: &mut Ctx, d: &FnDir, out: &mut String) {
     }
     // explicit token substitutions (each must match exactly once; listed in the report)
     let mut subs_done = vec![];
+    subs_done.extend(region_notes.iter().cloned());
     for (k, v) in &d.opts {
         if k.starts_with("sub") && k[3..].chars().all(|c| c.is_ascii_digit()) && k.len() > 3 {
             let (from, to) = v.split_once("=>").unwrap_or_else(|| die("subN= expects from=>to"));
@@ -1597,6 +2020,14 @@ fn emit_fn(ctx: &mut Ctx, d: &FnDir, out: &mut String) {
         let _ = writeln!(out, "    {{ unimplemented!() }}");
         let _ = writeln!(out, "//vx-end rest {}", qual);
         subs_done.push(format!("[prefix] last {} top-level statement(s) replaced by the unconstrained stub {}__rest", n, name));
+    }
+    if let Some(hd) = &region_havoc_decl {
+        let _ = writeln!(out, "//vx-begin rest {}", qual);
+        let _ = writeln!(out, "// stands for the statements dropped by the slice: arbitrary effect on its arguments, no postcondition");
+        let _ = writeln!(out, "    #[verifier::external_body]");
+        let _ = writeln!(out, "    pub {}", hd);
+        let _ = writeln!(out, "    {{ unimplemented!() }}");
+        let _ = writeln!(out, "//vx-end rest {}", qual);
     }
     emit_one(head, &d.spec, "fn", out);
     let trait_method = f.trait_.is_some() && !d.opts.contains_key("inherent") && !free;
